@@ -397,6 +397,9 @@ class Exec(ExprMixin, StmtMixin, LoopMixin, ModelMixin):
                 e = self.make_builtin_exc("TypeError", [])
             else:
                 raise Unsupported(f"raise of {e!r}")
+        if isinstance(e, Obj) and e.is_exc and cause is not None and isinstance(cause, ExcSym) and cause.user \
+                and "KeyNotFoundError" in self.exc_ancestors_of(e):
+            self.tags.append(("user-exception-as-missing-option", str(cause.term)[:80]))
         if isinstance(e, Obj) and not getattr(e, "cause_set", False):
             e.cause_set = True
             if cause is None:
@@ -658,7 +661,7 @@ class Exec(ExprMixin, StmtMixin, LoopMixin, ModelMixin):
         if self.fork(T.call_ok(fterm, p)):
             return Sym("val", T.call_val(fterm, p))
         self.tags.append(("user-raise", str(fterm)))
-        self.do_raise(ExcSym(T.call_exc(fterm, p), "Exception"))
+        self.do_raise(ExcSym(T.call_exc(fterm, p), "Exception", user=True))
 
     def call_modular(self, mm, args, kwargs):
         recv, name = mm.recv, mm.name
